@@ -322,6 +322,9 @@ func genGraph(r *lib.Rng, tier string) *Case {
 			if r.Chance(1, 6) {
 				hs = pickSome(r, nH, 2, 2)
 			}
+			if r.Chance(1, 12) {
+				hs = []int{} // compose.WithCallbacks() without any handler: a legal option that attaches nothing
+			}
 			out = append(out, GOpt{Hs: hs})
 		}
 		// designated options
@@ -330,6 +333,9 @@ func genGraph(r *lib.Rng, tier string) *Case {
 			o := GOpt{Hs: pickSome(r, nH, 1, 1)}
 			if r.Chance(1, 6) {
 				o.Hs = pickSome(r, nH, 2, 2)
+			}
+			if r.Chance(1, 12) {
+				o.Hs = []int{} // a designated option without handlers: its paths are still validated
 			}
 			nP := 1
 			if r.Chance(1, 4) {
@@ -386,6 +392,11 @@ func genGraph(r *lib.Rng, tier string) *Case {
 		if totalIntr(c) > 1 && r.Chance(1, 3) {
 			c.FaultAt = 2
 		}
+	}
+	// a second call on the same compiled object (single-run cases whose run leaves nothing behind): a quarter
+	// before the observed call, half concurrently with it
+	if !c.Store && !c.leavesTasksBehind() {
+		c.Neighbour = []string{"before", "during", "during", ""}[(c.Seed>>32)%4]
 	}
 	return c
 }
@@ -636,12 +647,13 @@ type runRec struct {
 	mu        sync.Mutex
 	execs     map[int][]bodyRec // executions in the current run of a run sequence
 	shared    map[int]int
+	sharedNb  map[int]int             // the same counter for the executions of the neighbour call
 	count     map[int]int             // executions of a unit over the whole run sequence (decides interrupts)
 	toolLists map[int][]tool.BaseTool // ToolsNode uid -> the tool list the case passes as a call option
 }
 
 func newRunRec() *runRec {
-	return &runRec{execs: map[int][]bodyRec{}, shared: map[int]int{}, count: map[int]int{}, toolLists: map[int][]tool.BaseTool{}}
+	return &runRec{execs: map[int][]bodyRec{}, shared: map[int]int{}, sharedNb: map[int]int{}, count: map[int]int{}, toolLists: map[int][]tool.BaseTool{}}
 }
 
 // nextRun forgets the per-run execution records (the counters that decide interrupts stay).
@@ -717,11 +729,29 @@ func (s *memStore) Set(_ context.Context, id string, cp []byte) error {
 	return nil
 }
 
-func (rr *runRec) body(n *GNode, in vmap) (vmap, error) {
+func (rr *runRec) body(ctx context.Context, n *GNode, in vmap) (vmap, error) {
 	if n.DelayUs > 0 {
 		time.Sleep(time.Duration(n.DelayUs) * time.Microsecond)
 	}
 	inS := render(in)
+	if isNeighbour(ctx) {
+		// an execution of the neighbour call (another call on the same compiled graph): the same
+		// behaviour, nothing recorded, the counters of the observed call untouched
+		rr.mu.Lock()
+		outKey := fmt.Sprintf("o%d", n.UID)
+		if n.Shared > 0 {
+			outKey = fmt.Sprintf("s%d_%d", n.Shared, rr.sharedNb[n.Shared])
+			rr.sharedNb[n.Shared]++
+		}
+		rr.mu.Unlock()
+		if n.Fails {
+			if n.Panics {
+				panic(panicMsg)
+			}
+			return nil, errNode
+		}
+		return vmap{outKey: outKey + "[" + inS + "]"}, nil
+	}
 	rr.mu.Lock()
 	id, outKey := n.UID, fmt.Sprintf("o%d", n.UID)
 	if n.Shared > 0 {
@@ -802,7 +832,7 @@ func (rr *runRec) lambda(n *GNode) *compose.Lambda {
 		i = func(ctx context.Context, in vmap, _ ...lopt) (vmap, error) {
 			if n.SelfCB {
 				ctx = callbacks.OnStart(ctx, in)
-				out, err := rr.body(n, in)
+				out, err := rr.body(ctx, n, in)
 				if err != nil {
 					callbacks.OnError(ctx, err)
 					return nil, err
@@ -810,7 +840,7 @@ func (rr *runRec) lambda(n *GNode) *compose.Lambda {
 				callbacks.OnEnd(ctx, out)
 				return out, nil
 			}
-			return rr.body(n, in)
+			return rr.body(ctx, n, in)
 		}
 	}
 	// a lambda that fires its callbacks itself (WithLambdaCallbackEnable) does so in every paradigm it
@@ -820,7 +850,7 @@ func (rr *runRec) lambda(n *GNode) *compose.Lambda {
 			if n.SelfCB {
 				ctx = callbacks.OnStart(ctx, in)
 			}
-			out, err := rr.body(n, in)
+			out, err := rr.body(ctx, n, in)
 			if err != nil {
 				if n.SelfCB {
 					callbacks.OnError(ctx, err)
@@ -841,7 +871,7 @@ func (rr *runRec) lambda(n *GNode) *compose.Lambda {
 			}
 			m, err := drain(in)
 			if err == nil {
-				m, err = rr.body(n, m)
+				m, err = rr.body(ctx, n, m)
 			}
 			if err != nil {
 				if n.SelfCB {
@@ -863,7 +893,7 @@ func (rr *runRec) lambda(n *GNode) *compose.Lambda {
 			m, err := drain(in)
 			var out vmap
 			if err == nil {
-				out, err = rr.body(n, m)
+				out, err = rr.body(ctx, n, m)
 			}
 			if err != nil {
 				if n.SelfCB {
@@ -1139,7 +1169,13 @@ func faultSite(msg string) string {
 }
 
 func call(r compose.Runnable[vmap, vmap], paradigm string, inChunks int, opts ...compose.Option) string {
-	ctx := context.Background()
+	res, msg := callCtx(context.Background(), r, paradigm, inChunks, opts...)
+	lastCallErr = msg
+	return res
+}
+
+// callCtx: the same on a context of the caller's choice; answers the canonical outcome and the error message
+func callCtx(ctx context.Context, r compose.Runnable[vmap, vmap], paradigm string, inChunks int, opts ...compose.Option) (string, string) {
 	var out vmap
 	var err error
 	switch paradigm {
@@ -1160,18 +1196,16 @@ func call(r compose.Runnable[vmap, vmap], paradigm string, inChunks int, opts ..
 			out, err = drain(sr)
 		}
 	}
-	lastCallErr = ""
 	if err != nil {
-		lastCallErr = err.Error()
 		if os.Getenv("C10_DEBUG") != "" {
 			fmt.Fprintln(os.Stderr, "C10_DEBUG error:", err)
 		}
 		if _, ok := compose.ExtractInterruptInfo(err); ok {
-			return "intr"
+			return "intr", err.Error()
 		}
-		return "err"
+		return "err", err.Error()
 	}
-	return "ok:" + render(out)
+	return "ok:" + render(out), ""
 }
 
 // ---------------------------------------------------------------- what the property expects (static)
@@ -1654,6 +1688,23 @@ func runGraph(c *Case) lib.Result {
 		}
 		return out
 	}
+	for _, id := range c.Globals {
+		if b := baseOf(hs[id]); b != nil {
+			b.global = true
+		}
+	}
+	// the handlers of the neighbour call: objects of their own (same specs), passed to that call only
+	shadow := makeHandlers(c.Handlers, s)
+	for _, h := range shadow {
+		baseOf(h).shadow = true
+	}
+	toShadow := func(ids []int) []callbacks.Handler {
+		out := make([]callbacks.Handler, len(ids))
+		for i, id := range ids {
+			out[i] = shadow[id]
+		}
+		return out
+	}
 	maxRuns := 1
 	if c.Store {
 		maxRuns = totalIntr(c) + 2
@@ -1810,6 +1861,49 @@ func runGraph(c *Case) lib.Result {
 			built[which] = opts
 			return append([]compose.Option{}, opts...)
 		}
+		// the neighbour call: the same compiled object, a context that says so, the options of the case in
+		// reverse order plus one for the whole graph - every handler a shadow object passed to this call only
+		var nbDone chan struct{}
+		neighbour := func() {
+			var nopts []compose.Option
+			for i := len(c.Opts) - 1; i >= 0; i-- {
+				o := c.Opts[i]
+				op := compose.WithCallbacks(toShadow(o.Hs)...)
+				if len(o.Paths) > 0 {
+					var nps []*compose.NodePath
+					for _, p := range o.Paths {
+						keys := make([]string, len(p))
+						for i, k := range p {
+							keys[i] = nodeKey(k)
+						}
+						nps = append(nps, compose.NewNodePath(keys...))
+					}
+					op = op.DesignateNodeWithPath(nps...)
+				}
+				nopts = append(nopts, op)
+			}
+			all := make([]int, 0, len(c.Handlers))
+			for _, sp := range c.Handlers {
+				all = append(all, sp.ID)
+			}
+			nopts = append(nopts, compose.WithCallbacks(toShadow(all)...))
+			nopts = append(nopts, rr.toolListOpts(c.Stages, nil)...)
+			_ = lib.Recover(func() {
+				_, _ = callCtx(context.WithValue(context.Background(), neighbourKey, true), run1, c.Paradigm, c.InChunks, nopts...)
+			})
+		}
+		switch c.Neighbour {
+		case "before":
+			neighbour()
+		case "during":
+			nbDone = make(chan struct{})
+			lead := time.Duration((c.Seed>>36)%3) * 150 * time.Microsecond // 0: together, else the neighbour starts first
+			go func() {
+				defer close(nbDone)
+				neighbour()
+			}()
+			time.Sleep(lead)
+		}
 		ps := newPlan(c)
 		for k := 0; k < maxRuns; k++ {
 			rr.nextRun()
@@ -1818,6 +1912,14 @@ func runGraph(c *Case) lib.Result {
 				which = 1
 			}
 			result := callRun(rr, run1, store1, ps, k, c.optsFor(k), mkCallOpts(which, c.optsFor(k)))
+			if nbDone != nil {
+				select {
+				case <-nbDone:
+				case <-time.After(30 * time.Second):
+					fail("graph-hang", "the concurrent call on the same compiled graph did not return")
+				}
+				nbDone = nil
+			}
 			if c.faultStrikes(k) {
 				faultWhere = faultSite(lastCallErr)
 			}
@@ -1976,6 +2078,12 @@ func runGraph(c *Case) lib.Result {
 		nIntrRuns++
 		ps.advanceRun(c.Stages, c.optsFor(k))
 	}
+	// no handler crossed from one call on the compiled graph to the other
+	s.mu.Lock()
+	for _, m := range s.stray {
+		fail("graph-other-call", "%s", m)
+	}
+	s.mu.Unlock()
 	// the caller's own handler slices (the arguments of WithCallbacks) after all runs
 	for _, cs := range callerSlices {
 		if what := cs.changed(); what != "" {
@@ -2117,6 +2225,21 @@ func runGraph(c *Case) lib.Result {
 	}
 	if nStops > 0 {
 		res.Tags = append(res.Tags, fmt.Sprintf("interrupt-points:%d", nStops))
+	}
+	if c.Neighbour != "" {
+		res.Tags = append(res.Tags, "neighbour-call:"+c.Neighbour)
+	}
+	for _, sp := range c.Handlers {
+		if sp.Builder {
+			res.Tags = append(res.Tags, "handler-from-builder")
+			break
+		}
+	}
+	for _, o := range append(append([]GOpt{}, c.Opts...), c.Opts2...) {
+		if len(o.Hs) == 0 {
+			res.Tags = append(res.Tags, "option-without-handlers")
+			break
+		}
 	}
 	if c.ResumeFault != "" {
 		if faultWhere == "" {
